@@ -155,3 +155,76 @@ pub fn compare_scans(input: &str, a: &[RTok], output: &str, b: &[RTok], fmt_mlst
     }
     Ok(())
 }
+
+/// Non-blank ordinal ranges of tokens on logical lines that have an ancestor line lying entirely
+/// inside a verbatim region (known finding: such lines are not laid out at all). Uses pasfmt's
+/// own parse of the input, only to compute the signature of that finding.
+pub fn orphan_nb_ranges(input: &str) -> Vec<(usize, usize)> {
+    use pasfmt_core::prelude::*;
+    let Ok(p) = exec::lex_parse(input, exec::SOFT_STEP_LIMIT) else { return vec![] };
+    let n = p.tokens.len();
+    let mut spans = Vec::with_capacity(n);
+    let mut pos = 0usize;
+    for t in &p.tokens {
+        let ws = t.get_leading_whitespace().len();
+        let l = t.get_content().len();
+        spans.push((pos + ws, pos + ws + l));
+        pos += ws + l;
+    }
+    let mut ignored = vec![false; n];
+    let mut off = false;
+    for (i, t) in p.tokens.iter().enumerate() {
+        let mut this = off;
+        if let TokenType::Comment(_) = t.get_token_type() {
+            if let Some(on) = oracle::toggle_of(t.get_content()) {
+                this = true;
+                off = !on;
+            }
+        }
+        ignored[i] = this;
+    }
+    if !ignored.iter().any(|x| *x) {
+        return vec![];
+    }
+    let voided: Vec<bool> = p.lines.iter().map(|l| !l.get_tokens().is_empty() && l.get_tokens().iter().all(|&t| ignored.get(t).copied().unwrap_or(false))).collect();
+    let nb = NbIndex::new(input);
+    let mut out = vec![];
+    for (li, l) in p.lines.iter().enumerate() {
+        let mut cur = l.get_parent();
+        let mut depth = 0;
+        let mut orphan = false;
+        while let Some(par) = cur {
+            if depth > p.lines.len() {
+                break;
+            }
+            match p.lines.get(par.line_index) {
+                Some(pl) => {
+                    if voided[par.line_index] {
+                        orphan = true;
+                        break;
+                    }
+                    cur = pl.get_parent();
+                }
+                None => break,
+            }
+            depth += 1;
+        }
+        let _ = li;
+        if orphan {
+            for &t in l.get_tokens() {
+                if let Some(&(s, e)) = spans.get(t) {
+                    out.push((nb.ordinal_at(s), nb.ordinal_at(e)));
+                }
+            }
+        }
+    }
+    out
+}
+
+/// signature of a known finding: a multi-line literal is the first token of a logical line
+/// (possible in invalid code only); its length is then measured over the whole token
+pub fn mlstr_starts_logical_line(input: &str) -> bool {
+    use pasfmt_core::prelude::*;
+    let Ok(p) = exec::lex_parse(input, exec::SOFT_STEP_LIMIT) else { return false };
+    p.lines.iter().any(|l| l.get_tokens().first().and_then(|&t| p.tokens.get(t)).is_some_and(|t| t.get_token_type() == TokenType::TextLiteral(TextLiteralKind::MultiLine)))
+}
